@@ -841,11 +841,99 @@ func genText(cfg *hx.Config) []string {
 	return segs
 }
 
+// fullRowText: texts for a window of W >= 1 columns in which most lines end
+// exactly at the window width (their last row is flushed by the wrap, not by
+// the newline; wide characters count 2 columns) and are followed by 1..3 empty
+// lines - at the start, in the middle and at the end of the text - with "\n"
+// or "\r\n" terminators, optionally an unterminated last line, cut into up to
+// 3 segments at arbitrary rune boundaries.
+func fullRowText(cfg *hx.Config, W int) []string {
+	r := cfg.Rand
+	nl := func() string {
+		if r.Intn(4) == 0 {
+			return "\r\n"
+		}
+		return "\n"
+	}
+	line := func(width int) string { // a line of exactly width columns
+		var sb strings.Builder
+		for c := 0; c < width; {
+			if width-c >= 2 && r.Intn(5) == 0 {
+				sb.WriteString(pagerAlphabet[11+r.Intn(2)])
+				c += 2
+			} else {
+				sb.WriteString(pagerAlphabet[r.Intn(8)])
+				c++
+			}
+		}
+		return sb.String()
+	}
+	var sb strings.Builder
+	for i, n := 0, 1+r.Intn(4); i < n; i++ {
+		if r.Intn(4) == 0 { // any line, also an empty one
+			sb.WriteString(line(r.Intn(2*W + 2)))
+			sb.WriteString(nl())
+			continue
+		}
+		sb.WriteString(line(W * (1 + r.Intn(2))))
+		for k, m := 0, 2+r.Intn(3); k < m; k++ {
+			sb.WriteString(nl())
+		}
+	}
+	if r.Intn(3) == 0 {
+		sb.WriteString(line(1 + r.Intn(W+1))) // unterminated last line
+	}
+	rs := []rune(sb.String())
+	var segs []string
+	for nseg := 1 + r.Intn(3); nseg > 1 && len(rs) > 0; nseg-- {
+		k := r.Intn(len(rs) + 1)
+		segs = append(segs, string(rs[:k]))
+		rs = rs[k:]
+	}
+	return append(segs, string(rs))
+}
+
+func genTextFor(cfg *hx.Config, W int) []string {
+	if W >= 1 && cfg.Rand.Intn(3) == 0 {
+		return fullRowText(cfg, W)
+	}
+	return genText(cfg)
+}
+
+// directedFullRow: a line whose last row ends exactly at the width w, followed
+// by k empty lines, at the start, in the middle (second row of a wrapped line)
+// and at the end of the text; LF, CRLF and a wide character in the last column.
+func directedFullRow() (out [][]string, ws []int) {
+	for _, w := range []int{1, 2, 3, 5} {
+		full := "abcde"[:w]
+		for k := 1; k <= 3; k++ {
+			lf := strings.Repeat("\n", k+1)
+			crlf := strings.Repeat("\r\n", k+1)
+			for _, segs := range [][]string{
+				{full + lf + "xyz"},
+				{"q\n" + full + full + lf + "xy"},
+				{"q\n" + full + lf},
+				{full + crlf + "z"},
+				{full, lf, "z" + lf},
+				{full + "\n" + full + crlf + full + lf},
+			} {
+				out = append(out, segs)
+				ws = append(ws, w)
+			}
+		}
+	}
+	for k := 1; k <= 3; k++ {
+		out = append(out, []string{"a界" + strings.Repeat("\n", k+1) + "語b" + strings.Repeat("\n", k+1)})
+		ws = append(ws, 3)
+	}
+	return out, ws
+}
+
 func genPagerCase(cfg *hx.Config, maxOps int) ([]string, []pgOp) {
 	r := cfg.Rand
-	segs := genText(cfg)
 	W := r.Intn(9)
 	H := r.Intn(6)
+	segs := genTextFor(cfg, W)
 	var ops []pgOp
 	nops := 1 + r.Intn(maxOps)
 	draw := func() pgOp {
@@ -871,7 +959,7 @@ func genPagerCase(cfg *hx.Config, maxOps int) ([]string, []pgOp) {
 		case x < 80:
 			op = pgOp{kind: "setoffset", k: r.Intn(30) - 8}
 		case x < 90:
-			op = pgOp{kind: "settext", segs: genText(cfg)}
+			op = pgOp{kind: "settext", segs: genTextFor(cfg, W)}
 		default:
 			op = pgOp{kind: "layout"}
 		}
@@ -1002,6 +1090,12 @@ func main() {
 	for _, t := range []string{"abc", "abc\ndef", "abc\n", "", "\n", "abcd", "abcde", "ab界", "a\n\nb"} {
 		addPg([]string{t}, []pgOp{pd(4, 3), {kind: "down"}, pd(4, 3), {kind: "down"}, {kind: "down"}, pd(4, 1), {kind: "setoffset", k: -5}, pd(4, 2), pd(2, 2), pd(0, 2)}, "directed")
 	}
+	// a row flushed exactly at the width followed by 1..3 empty lines (start, middle, end of text)
+	frTexts, frWidths := directedFullRow()
+	for i, segs := range frTexts {
+		w := frWidths[i]
+		addPg(segs, []pgOp{pd(w, 3), {kind: "down"}, pd(w, 3), {kind: "setoffset", k: 50}, pd(w, 2), pd(w+1, 2), pd(w, 4), {kind: "settext", segs: []string{segs[0] + "\n\n"}}, {kind: "layout"}, pd(w, 9)}, "directed-fullrow")
+	}
 	np, pmax := 600, 14
 	if cfg.Thorough() {
 		np, pmax = 4000, 30
@@ -1057,6 +1151,6 @@ func main() {
 	hx.WithTimeout(2e9, vx.Close)
 
 	cfg.Write("C19",
-		"operation traces: vxfw/list.Dynamic (directed DESIGN-6 scenarios, every sequence of <=3 (quick) / <=4 (thorough) ops over {next,prev,wheel-down,wheel-up,draw} on small uniform lists, random sequences over next/prev (method, j/k, arrow keys), wheel events, SetCursor incl. beyond the end and >= 2^63, SetPendingScroll, item replacement, draws; item counts 0..9, heights 0..12, gaps 0..3, viewports 0..9); widgets/list.List (all methods, item replacement, windows 0..4 x -1..6 read back from the Vaxis screen); pager (texts with newlines, wide, combining, ZWJ, tab, CRLF, zero-width characters over up to 3 segments; draws at widths -1..8, scrolling, Offset assignment, re-layout); scrollbar (random totals/views/tops/windows). non-trivial = dyn: some Draw ran with a pending scroll or the wants-cursor flag; wlist: some Draw with offset > 0; pager: some Draw with Offset > 0; sbar: sensible position (1<=view<total, 0<=top<=total-view, window >= 1x1)",
+		"operation traces: vxfw/list.Dynamic (directed DESIGN-6 scenarios, every sequence of <=3 (quick) / <=4 (thorough) ops over {next,prev,wheel-down,wheel-up,draw} on small uniform lists, random sequences over next/prev (method, j/k, arrow keys), wheel events, SetCursor incl. beyond the end and >= 2^63, SetPendingScroll, item replacement, draws; item counts 0..9, heights 0..12, gaps 0..3, viewports 0..9); widgets/list.List (all methods, item replacement, windows 0..4 x -1..6 read back from the Vaxis screen); pager (texts with newlines, wide, combining, ZWJ, tab, CRLF, zero-width characters over up to 3 segments, and texts whose lines end exactly at the window width followed by 1..3 empty lines at the start, middle and end; draws at widths -1..8, scrolling, Offset assignment, re-layout); scrollbar (random totals/views/tops/windows). non-trivial = dyn: some Draw ran with a pending scroll or the wants-cursor flag; wlist: some Draw with offset > 0; pager: some Draw with Offset > 0; sbar: sensible position (1<=view<total, 0<=top<=total-view, window >= 1x1)",
 		[]*hx.Stream{ds, ws, ps, ss}, map[string]interface{}{"dynamic_draw_statistics": dynStats}, direct)
 }
